@@ -365,3 +365,38 @@ def run(ctx):
                             tm.rel,
                             c.lineno,
                         )
+
+    # ---- C27.6 stored option keys and exported names agree ----------------------------------
+    # Job.get_export_options filters the *stored* option keys by the exported name set.  Task._validate rewrites legacy keys (cache -> cache_scope);
+    # it is run by every constructor path, so it is the one place where the exported name of a rewritten key can be kept in step.
+    r6 = ctx.rule("C27.6", "an option key renamed by Task._validate is renamed in the exported-name set by Task._validate as well", floor=1)
+    val = tm.func("Task._validate")
+    vcfg = CFG(val)
+    renames = []
+    for n in ast.walk(val):
+        if isinstance(n, ast.If) and isinstance(n.test, ast.Compare) and len(n.test.ops) == 1 and isinstance(n.test.ops[0], ast.In) and isinstance(n.test.left, ast.Constant) and isinstance(n.test.left.value, str):
+            old = n.test.left.value
+            d = src(n.test.comparators[0])
+            removed = any(isinstance(c, ast.Call) and src(c.func) == f"{d}.pop" and c.args and isinstance(c.args[0], ast.Constant) and c.args[0].value == old for b in n.body for c in ast.walk(b)) or any(
+                isinstance(x, ast.Delete) and any(src(t) == f"{d}[{old!r}]" for t in x.targets) for b in n.body for x in ast.walk(b)
+            )
+            news = [t.slice.value for b in n.body for a in ast.walk(b) if isinstance(a, ast.Assign) for t in a.targets if isinstance(t, ast.Subscript) and src(t.value) == d and isinstance(t.slice, ast.Constant) and t.slice.value != old]
+            if removed and news:
+                renames.append((old, news[0], n.lineno))
+    if not renames:
+        raise AnalysisError("Task._validate: the legacy-option rewrite (cache -> cache_scope) was not found", "Task._validate")
+    for old, new, line in renames:
+        ok = False
+        for c in calls_in(val):
+            if src(c.func) == "self._export_options.add" and c.args and isinstance(c.args[0], ast.Constant) and c.args[0].value == new:
+                facts = facts_at(vcfg, vcfg.node_of(c))
+                if (f"{old!r} in self._export_options", True) in facts:
+                    ok = True
+        r6.check(
+            ok,
+            f"{tm.rel}:Task._validate:export-name:{old}->{new}",
+            f"Task._validate stores option `{old}` under the key `{new}` but leaves the exported name `{old}` as it is: Job.get_export_options keeps only stored keys that are in the exported-name "
+            f"set, so `@task(export_options={{'{old}': ...}})` (and Task(..., export_options={{'{old}'}})) exports nothing to child jobs, while .export_options({old}=...) -- which adds the synonym itself -- does",
+            tm.rel,
+            line,
+        )
